@@ -100,6 +100,25 @@ func RegisterRedactErrorFn(fn func(err error, p i.SafePrinter, verb rune))
   modifies G$redactErrorFn
   ensures [C17] ifmt.redactErrorFn == fn
 
+func StartMarker() (r []byte)
+  modifies alloc
+  ensures [C07,C12] fresh(r) && len(r) == 3 && isS(r, 0)
+
+func EndMarker() (r []byte)
+  modifies alloc
+  ensures [C07,C12] fresh(r) && len(r) == 3 && isE(r, 0)
+
+func RedactedMarker() (r []byte)
+  modifies alloc
+  ensures [C07,C12] fresh(r) && len(r) == 8 && isS(r, 0) && r[3] == 195 && r[4] == 151 && isE(r, 5)
+
+-- the text of a SafeFormatter without its markers: Sprint, then StripMarkers
+func StringWithoutMarkers(f SafeFormatter) (r string)
+  may-panic
+  modifies alloc, memU, fdp, fdk, fdar, fdao, fdal, fdf, fdfl, rxre, rxsrc, rxsrcl, rxrepl, rxrepll, rxres, rxresl
+  ensures [C07] !m.ReStripMarkers.MatchString(r)
+  ensures [C16] fdp == 1 && fdk == 1 && fdal == 1
+
 func JoinTo(w SafeWriter, delim RedactableString, values interface{})  [C11]
   loop 1 invariant 0 <= i && l == v.Len()
 
